@@ -147,7 +147,14 @@ def run(prog, rep, tier, repo):
             # the factorisation may live in a helper (`Factors::of(a)`): which matrix it receives there is not read by this rule
             rep.undecided('routing', key, 'no LU factorisation call in the body of %s itself (route kept in a helper?)' % name, site_of(f.body), proof=False)
         else:
-            (rep.ok if ok else rep.viol)('routing', key, 'LU route factorises the same matrix `a`' if ok else 'LU route does not factorise `a`', site_of(f.body))
+            if ok:
+                rep.ok('routing', key, 'LU route factorises the same matrix `a`')
+            elif any(tag(c.args[0]) == 'arg' and c.args[0] != a for c in lus):
+                rep.viol('routing', key, 'LU route does not factorise `a`', site_of(f.body))
+            else:
+                # a copy, a view or a value built from `a`: which matrix it holds is not read by this rule
+                rep.undecided('routing', key, 'LU route factorises %s, not the argument itself: not read' % [show(c.args[0])[:60] for c in lus if c.args[0] != a][:2],
+                              site_of(f.body), proof=False)
     # every value the slice-level solvers return comes out of one of the two factorisation routes: a return site that computes the solution by
     # other means (a closed form for small systems, say) is a third route with its own rounding behaviour -- routing independence and the
     # residual bound are then not inherited from Cholesky / pivoted LU
